@@ -139,9 +139,9 @@ def rnd_sep(R, depth=0):
     if k < 0.45:
         return R.choice(WS)
     if k < 0.6:
-        return '//' + R.choice(["", " c", "'", "{", "}", "+ 1", " // x", "{{"]) + '\n'
+        return '//' + R.choice(["", " c", "'", "{", "}", "+ 1", " // x", "{{", " é", "Größe 日本", "😀", " \u00a0x", "\r", "\t'"]) + '\n'
     if k < 0.9:
-        body = R.choice(["", " x ", "'q", "// ", "+", "\n", "1 + ", "''"])
+        body = R.choice(["", " x ", "'q", "// ", "+", "\n", "1 + ", "''", "é", " 日本語 ", "😀//", "\r\n"])
         if depth < 4 and R.random() < 0.4:
             body += rnd_sep_block(R, depth + 1) + R.choice(["", " y"])
         return '{' + body + '}'
@@ -149,7 +149,7 @@ def rnd_sep(R, depth=0):
 
 
 def rnd_sep_block(R, depth):
-    return '{' + R.choice(["", "n", " ' "]) + (rnd_sep_block(R, depth + 1) if depth < 4 and R.random() < 0.4 else '') + '}'
+    return '{' + R.choice(["", "n", " ' ", "ü"]) + (rnd_sep_block(R, depth + 1) if depth < 4 and R.random() < 0.4 else '') + '}'
 
 
 def layout(tokens, R, recase=True, dense=0.5, tail=True):
@@ -168,7 +168,7 @@ def layout(tokens, R, recase=True, dense=0.5, tail=True):
             out += seps
         out += t
     if tail:
-        end = R.choice(['', ' ', '\n', ' // end', ' {open', '{ {nested} still open', '//'])
+        end = R.choice(['', ' ', '\n', ' // end', ' {open', '{ {nested} still open', '//', '// ünï', '{ é'])
         if end and glue(sp[-1] if sp else '', end):
             end = ' ' + end
         out += end
